@@ -45,6 +45,7 @@ type sprintObs struct {
 	hasURNs  bool
 	status   string
 
+	spell     string // how the environment in force writes that policy: urns | none | absent | empty | null
 	policy    string // redaction policy in force during the sprint according to the scenario: urns | none | unknown
 	restarted bool   // the session was marshalled and read back before this call
 	envKind   string // what the environment of the applied resume changed relative to the one in force: policy-only | policy+other | other-only | identical (+contact), "" = no environment
@@ -123,8 +124,9 @@ func observeTwin(scen *gen.Scenario, seed int64, tpls map[[2]int][]tplSpec, genT
 	}
 	obs := &twinObs{}
 	si := 0
+	curSpell := ""
 	after := func(rec *drive.CallRecord, policy string, restarted bool) {
-		sp := sprintObs{kind: rec.Kind, policy: policy, restarted: restarted}
+		sp := sprintObs{kind: rec.Kind, policy: policy, restarted: restarted, spell: curSpell}
 		if rec.ResumeType != "" {
 			sp.kind += ":" + rec.ResumeType
 		}
@@ -209,6 +211,7 @@ func observeTwin(scen *gen.Scenario, seed int64, tpls map[[2]int][]tplSpec, genT
 
 	trigEnv, _ := asMap(scen.Trigger["environment"])
 	cur, curRest := policyOf(trigEnv), otherSettings(trigEnv)
+	curSpell = policySpelling(trigEnv)
 	rec := rn.Start()
 	after(rec, cur, false)
 	if !rec.OK() {
@@ -257,6 +260,9 @@ func observeTwin(scen *gen.Scenario, seed int64, tpls map[[2]int][]tplSpec, genT
 			eff, cur, curRest = "unknown", "unknown", "unknown"
 		default:
 			eff, cur, curRest = want, want, wantRest
+			if e, ok := asMap(map[string]any(m)["environment"]); ok {
+				curSpell = policySpelling(e)
+			}
 		}
 		after(rec, eff, restarted)
 		obs.sprints[len(obs.sprints)-1].envKind = envKind
